@@ -27,6 +27,9 @@ fn main() {
     if args.len() < 3 {
         usage();
     }
+    if args[1] == "selfcheck-dump" && args.len() < 4 {
+        usage();
+    }
     let seed = std::env::var("VERIF_SEED")
         .ok()
         .and_then(|s| s.parse::<i64>().ok())
@@ -79,6 +82,40 @@ fn main() {
                 ctx.start.elapsed().as_secs_f64()
             );
             std::process::exit(if rep.violations > 0 { 1 } else { 0 });
+        }
+        "selfcheck-dump" => {
+            // engine side of the stateright cross-check: dump the set of fingerprints
+            // reachable within <depth> for the fixed self-check alphabet on 2x2/unlimited
+            let depth: usize = args[2].parse().unwrap();
+            let cfg = ops::Cfg::new(2, 2, None);
+            let alphabet = alphabets::a_altresize(&cfg, &[(1, 1), (3, 2), (2, 3)]);
+            let sys = checks::c02::Sys;
+            let mut counts = vec![];
+            let mut last: Vec<u128> = vec![];
+            for _ in 0..2 {
+                let mut b = engine::Bfs::new(&sys, cfg, &alphabet, depth, "selfcheck");
+                b.keep_states = true;
+                let out = b.run();
+                counts.push((out.states, out.transitions));
+                let mut fps: Vec<u128> = out
+                    .all_states
+                    .iter()
+                    .map(|h| {
+                        let mut vt = cfg.build();
+                        for &i in h {
+                            let _ = ops::apply(&mut vt, &alphabet[i as usize]);
+                        }
+                        obs::fingerprint(&vt)
+                    })
+                    .collect();
+                fps.sort();
+                fps.dedup();
+                last = fps;
+            }
+            assert_eq!(counts[0], counts[1], "two engine runs disagree");
+            println!("engine: states {} transitions {} (identical in two runs)", counts[0].0, counts[0].1);
+            let text: String = last.iter().map(|f| format!("{:032x}\n", f)).collect();
+            std::fs::write(&args[3], text).unwrap();
         }
         "replay" => {
             let s = std::fs::read_to_string(&args[2]).expect("read replay file");
